@@ -151,23 +151,25 @@ Qed.
 Section PitCost.
   Variable St : Type.
   Variable f : St -> Q -> Q -> Q -> Q.
-  Hypothesis f_nonneg : forall s a b c, 0 <= a -> 0 <= b -> 0 <= c -> 0 <= f s a b c.
-  Hypothesis f_mono : forall s a b c a' b' c', 0 <= a <= a' -> 0 <= b <= b' -> 0 <= c <= c' -> f s a b c <= f s a' b' c'.
+  Variable ok : St -> Prop.                (* admissible static data (e.g. non-negative output sizes) *)
+  Hypothesis f_nonneg : forall s a b c, ok s -> 0 <= a -> 0 <= b -> 0 <= c -> 0 <= f s a b c.
+  Hypothesis f_mono : forall s a b c a' b' c', ok s -> 0 <= a <= a' -> 0 <= b <= b' -> 0 <= c <= c' -> f s a b c <= f s a' b' c'.
+  Definition ok_net (n : net St) : Prop := Forall (fun l => ok (l_s l)) (n_layers n).
 
-  Lemma layer_cost_mono ms ms' (l l' : layer St) : wf_affine (l_in l) -> Forall2 masker_le ms ms' -> layer_le l l' ->
+  Lemma layer_cost_mono ms ms' (l l' : layer St) : ok (l_s l) -> wf_affine (l_in l) -> Forall2 masker_le ms ms' -> layer_le l l' ->
     0 <= layer_cost f ms l <= layer_cost f ms' l'.
   Proof.
-    intros Hw Hm [Hs [Hk [Hi Ht]]]. unfold layer_cost. rewrite <- Hs, <- Hk, <- Hi.
+    intros Hok Hw Hm [Hs [Hk [Hi Ht]]]. unfold layer_cost. rewrite <- Hs, <- Hk, <- Hi.
     pose proof (in_eff_mono ms ms' (l_in l) Hw Hm). pose proof (mask_eff_mono ms ms' (l_mask l) Hm).
-    pose proof (k_eff_mono _ _ Ht). split; [apply f_nonneg; lra|apply f_mono; lra].
+    pose proof (k_eff_mono _ _ Ht). split; [apply f_nonneg; [exact Hok|lra..]|apply f_mono; [exact Hok|lra..]].
   Qed.
 
-  Theorem pit_cost_mono_abs (n n' : net St) : wf_net n -> net_le n n' -> 0 <= pit_cost f n <= pit_cost f n'.
+  Theorem pit_cost_mono_abs (n n' : net St) : ok_net n -> wf_net n -> net_le n n' -> 0 <= pit_cost f n <= pit_cost f n'.
   Proof.
-    intros Hw [Hm Hl]. unfold pit_cost. apply le0_qsum. unfold wf_net in Hw.
+    intros Hok Hw [Hm Hl]. unfold pit_cost. apply le0_qsum. unfold wf_net in Hw. unfold ok_net in Hok.
     induction Hl as [|l l' ls ls' H1 _ IH]; cbn [map]; constructor.
-    - apply layer_cost_mono; [inversion Hw; assumption|exact Hm|exact H1].
-    - apply IH. inversion Hw; assumption.
+    - apply layer_cost_mono; [inversion Hok; assumption|inversion Hw; assumption|exact Hm|exact H1].
+    - apply IH; [inversion Hok; assumption|inversion Hw; assumption].
   Qed.
 
   Lemma layer_le_refl (l : layer St) : layer_le l l.
@@ -179,10 +181,1190 @@ Section PitCost.
     - induction (n_layers n); constructor; [apply layer_le_refl|assumption].
   Qed.
 
-  Theorem pit_cost_nonneg (n : net St) : wf_net n -> 0 <= pit_cost f n.
-  Proof. intro H. apply (pit_cost_mono_abs n n H (net_le_refl n)). Qed.
+  Theorem pit_cost_nonneg (n : net St) : ok_net n -> wf_net n -> 0 <= pit_cost f n.
+  Proof. intros H0 H. apply (pit_cost_mono_abs n n H0 H (net_le_refl n)). Qed.
 
   (* structural: the evaluator has no weight argument *)
   Theorem cost_indep_weights (m m' : pit_model St) : pm_arch m = pm_arch m' -> model_cost f m = model_cost f m'.
   Proof. unfold model_cost. intros ->. reflexivity. Qed.
 End PitCost.
+
+(* ================================================================ PART A: all masks open => original cost *)
+Lemma inject_nat_S n : inject_Z (Z.of_nat (S n)) == 1 + inject_Z (Z.of_nat n).
+Proof. rewrite Nat2Z.inj_succ. unfold Z.succ. rewrite inject_Z_plus. ring. Qed.
+
+Lemma qsum_ones l : Forall (fun x => x == 1) l -> qsum l == inject_Z (Z.of_nat (length l)).
+Proof.
+  induction 1 as [|x l Hx _ IH]; [reflexivity|].
+  cbv beta in Hx. rewrite qsum_cons, IH. cbn [length]. rewrite inject_nat_S, Hx. reflexivity.
+Qed.
+
+Lemma qsum_const1 {A} (l : list A) : qsum (map (fun _ => 1) l) == inject_Z (Z.of_nat (length l)).
+Proof.
+  induction l as [|x l IH]; [reflexivity|].
+  cbn [map length]. rewrite qsum_cons, IH, inject_nat_S. reflexivity.
+Qed.
+
+Lemma keep_alive_unit p : unit_vec p -> Forall (fun x => x == 1) (keep_alive p).
+Proof.
+  unfold unit_vec. induction 1 as [|x t Hx Ht IH]; [constructor|].
+  destruct t as [|y t]; [cbn [keep_alive]; constructor; [reflexivity|constructor]|].
+  change (keep_alive (x :: y :: t)) with (qabs x :: keep_alive (y :: t)). constructor; [exact Hx|exact IH].
+Qed.
+
+Lemma out_eff_open m : unit_vec (m_alpha m) -> out_eff m == n_of (m_alpha m).
+Proof.
+  intro H. unfold out_eff, theta_of, n_of. destruct (m_frozen m).
+  - unfold theta_alpha_frozen. apply qsum_const1.
+  - unfold theta_alpha. rewrite (qsum_ones _ (keep_alive_unit _ H)), keep_alive_length. reflexivity.
+Qed.
+
+Lemma qmul3_map_seq (f g : nat -> Q) s n :
+  qmul3 (map f (seq s n)) (map g (seq s n)) = map (fun j => f j * g j) (seq s n).
+Proof.
+  revert s. induction n as [|n IH]; intro s; [reflexivity|].
+  cbn [seq map]. unfold qmul3 in *. cbn [combine map fst snd]. rewrite IH. reflexivity.
+Qed.
+
+Lemma nat_inv c : (1 <= c)%nat -> inject_Z (Z.of_nat c) * (1 # Pos.of_nat c) == 1.
+Proof.
+  intro H. unfold Qeq, Qmult, inject_Z. cbn [Qnum Qden]. rewrite Pos.mul_1_l.
+  replace (Z.pos (Pos.of_nat c)) with (Z.of_nat c); [lia|].
+  destruct c as [|c]; [lia|]. rewrite <- Pos.of_nat_succ, Zpos_P_of_succ_nat. lia.
+Qed.
+
+Lemma qsum_indicator (b : nat -> bool) (g : nat -> Q) l : (forall i, In i l -> g i == 1) ->
+  qsum (map (fun i => if b i then g i else 0) l) == inject_Z (Z.of_nat (length (filter b l))).
+Proof.
+  induction l as [|i l IH]; intro H; [reflexivity|].
+  cbn [map filter]. rewrite qsum_cons, IH by (intros; apply H; right; assumption).
+  destruct (b i).
+  - rewrite (H i) by (left; reflexivity). cbn [length]. rewrite inject_nat_S. reflexivity.
+  - ring.
+Qed.
+
+Lemma ones_nth ka i : Forall (fun x => x == 1) ka -> (i < length ka)%nat -> nth i ka 0 == 1.
+Proof. intros H Hi. rewrite Forall_forall in H. apply H, nth_In, Hi. Qed.
+
+Lemma ones_firstn n ka : Forall (fun x => x == 1) ka -> Forall (fun x => x == 1) (firstn n ka).
+Proof. intro H. revert n. induction H; intros [|n]; cbn [firstn]; constructor; auto. Qed.
+
+Lemma theta_gamma_at_ones ka d : Forall (fun x => x == 1) ka ->
+  theta_gamma_at ka d == inject_Z (Z.of_nat (length (filter (fun p => Nat.eqb (d mod 2 ^ p) 0) (seq 0 (length ka))))).
+Proof.
+  intro H. unfold theta_gamma_at.
+  apply (qsum_indicator (fun p => Nat.eqb (d mod 2 ^ p) 0) (fun i => nth i ka 0)).
+  intros i Hi. apply in_seq in Hi. apply ones_nth; [exact H|lia].
+Qed.
+
+Lemma level_count_pos d L : (1 <= L)%nat -> (1 <= length (filter (fun p => Nat.eqb (d mod 2 ^ p) 0) (seq 0 L)))%nat.
+Proof.
+  intro H. destruct L as [|L]; [lia|]. cbn [seq filter]. change (2 ^ 0)%nat with 1%nat.
+  rewrite Nat.mod_1_r. cbn [Nat.eqb length]. lia.
+Qed.
+
+Lemma gamma_len_pos K : (1 <= gamma_len K)%nat.
+Proof. unfold gamma_len. lia. Qed.
+
+Lemma k_eff_cont_open K beta gamma : (1 <= K)%nat -> length beta = K -> length gamma = gamma_len K ->
+  unit_vec beta -> unit_vec gamma -> k_eff_cont true K beta gamma == inject_Z (Z.of_nat K).
+Proof.
+  intros HK Hb Hg Ub Ug. unfold k_eff_cont, theta_gamma, theta_beta, gamma_norm, beta_norm. cbv zeta.
+  rewrite Hb. rewrite !qmul3_map_seq.
+  transitivity (qsum (map (fun _ : nat => 1) (seq 0 K))); [|rewrite qsum_const1, seq_length; reflexivity].
+  apply qsum_map_ext. intros j Hj. apply in_seq in Hj. unfold dist.
+  assert (E1 : theta_gamma_at (keep_alive gamma) (K - 1 - j) ==
+     inject_Z (Z.of_nat (length (filter (fun p => Nat.eqb ((K - 1 - j) mod 2 ^ p) 0) (seq 0 (gamma_len K)))))).
+  { rewrite (theta_gamma_at_ones _ _ (keep_alive_unit _ Ug)), keep_alive_length, Hg. reflexivity. }
+  assert (E2 : qsum (firstn (S j) (keep_alive beta)) == inject_Z (Z.of_nat (S j))).
+  { rewrite (qsum_ones _ (ones_firstn _ _ (keep_alive_unit _ Ub))), firstn_length, keep_alive_length, Hb.
+    rewrite Nat.min_l by lia. reflexivity. }
+  rewrite E1, E2. rewrite nat_inv by (apply level_count_pos, gamma_len_pos). rewrite nat_inv by lia. ring.
+Qed.
+
+Lemma unit_vec_nth ms j : Forall (fun m => unit_vec (m_alpha m)) ms -> unit_vec (m_alpha (nth j ms dflt_masker)).
+Proof.
+  intro H. revert j. induction H as [|m ms Hm _ IH]; intro j.
+  - destruct j; constructor.
+  - destruct j as [|j]; cbn [nth]; [exact Hm|apply IH].
+Qed.
+
+Lemma mask_eff_open ms j : Forall (fun m => unit_vec (m_alpha m)) ms -> mask_eff ms j == mask_orig ms j.
+Proof. intro H. unfold mask_eff, mask_orig. apply out_eff_open, unit_vec_nth, H. Qed.
+
+Lemma in_eff_open ms a : Forall (fun m => unit_vec (m_alpha m)) ms -> in_eff ms a == in_orig ms a.
+Proof.
+  intro H. unfold in_eff, in_orig.
+  rewrite (qsum_map_ext (fun p => fst p * mask_eff ms (snd p)) (fun p => fst p * mask_orig ms (snd p))); [reflexivity|].
+  intros p _. rewrite (mask_eff_open ms (snd p) H). reflexivity.
+Qed.
+
+Lemma k_eff_open t : open_tmask t -> k_eff t == k_orig t.
+Proof.
+  destruct t as [t|]; cbn [open_tmask k_eff k_orig]; [|reflexivity].
+  intros [HK [Hb [Hg [Ub Ug]]]]. apply k_eff_cont_open; assumption.
+Qed.
+
+Lemma masker_le_all ms : Forall2 masker_le ms ms.
+Proof. induction ms; constructor; [apply masker_le_refl|assumption]. Qed.
+
+Section Open.
+  Variable St : Type.
+  Variable f : St -> Q -> Q -> Q -> Q.
+  Variable ok : St -> Prop.
+  Hypothesis f_mono : forall s a b c a' b' c', ok s -> 0 <= a <= a' -> 0 <= b <= b' -> 0 <= c <= c' -> f s a b c <= f s a' b' c'.
+
+  Lemma f_ext s a b c a' b' c' : ok s -> 0 <= a -> 0 <= b -> 0 <= c -> a == a' -> b == b' -> c == c' ->
+    f s a b c == f s a' b' c'.
+  Proof. intros. apply Qle_antisym; apply f_mono; try assumption; lra. Qed.
+
+  Theorem pit_cost_open (n : net St) : ok_net St ok n -> wf_net n -> open_net n -> pit_cost f n == orig_cost f n.
+  Proof.
+    intros Hok Hw [Hm Ht]. unfold pit_cost, orig_cost. apply qsum_map_ext. intros l Hl.
+    unfold wf_net in Hw. unfold ok_net in Hok. rewrite Forall_forall in Hw, Ht, Hok. specialize (Hw l Hl). specialize (Ht l Hl). specialize (Hok l Hl). cbv beta in Hw, Ht, Hok.
+    unfold layer_cost. apply f_ext.
+    - exact Hok.
+    - apply (in_eff_mono _ _ _ Hw (masker_le_all _)).
+    - apply (mask_eff_mono _ _ _ (masker_le_all _)).
+    - apply (k_eff_mono _ _ (otmask_le_refl _)).
+    - apply in_eff_open, Hm.
+    - apply mask_eff_open, Hm.
+    - apply k_eff_open, Ht.
+  Qed.
+End Open.
+
+(* ================================================================ PART B: MPS / SuperNet / ODiMO *)
+Lemma mix_cost_cons x t y c : mix_cost (x :: t) (y :: c) = x * y + mix_cost t c.
+Proof. reflexivity. Qed.
+Lemma mix_cost_nil_l c : mix_cost [] c = 0.
+Proof. reflexivity. Qed.
+Lemma mix_cost_nil_r t : mix_cost t [] = 0.
+Proof. destruct t; reflexivity. Qed.
+
+Lemma mix_cost_nonneg theta c : Forall (fun x => 0 <= x) theta -> Forall (fun x => 0 <= x) c -> 0 <= mix_cost theta c.
+Proof.
+  intro H. revert c. induction H as [|x t Hx _ IH]; intros c Hc; [rewrite mix_cost_nil_l; lra|].
+  destruct Hc as [|y c Hy Hc]; [rewrite mix_cost_nil_r; lra|].
+  rewrite mix_cost_cons. specialize (IH c Hc). nra.
+Qed.
+
+Theorem mix_cost_affine theta c i h : (i < length theta)%nat -> (length theta = length c) ->
+  mix_cost (upd theta i (nth i theta 0 + h)) c == mix_cost theta c + h * nth i c 0.
+Proof.
+  revert c i. induction theta as [|x t IH]; intros c i Hi Hl; [cbn in Hi; lia|].
+  destruct c as [|y c]; [cbn in Hl; lia|].
+  destruct i as [|i]; cbn [upd nth].
+  - rewrite !mix_cost_cons. ring.
+  - rewrite !mix_cost_cons. rewrite IH by (cbn in Hi, Hl; lia). ring.
+Qed.
+
+Lemma mix_cost_map_affine {A} (F G H : A -> Q) h thin (c : list A) :
+  (forall r, In r c -> F r == G r + h * H r) ->
+  mix_cost thin (map F c) == mix_cost thin (map G c) + h * mix_cost thin (map H c).
+Proof.
+  revert thin. induction c as [|r c IH]; intros thin E.
+  - cbn [map]. rewrite !mix_cost_nil_r. ring.
+  - destruct thin as [|x thin]; [rewrite !mix_cost_nil_l; ring|].
+    cbn [map]. rewrite !mix_cost_cons. rewrite (E r) by (left; reflexivity).
+    rewrite IH by (intros; apply E; right; assumption). ring.
+Qed.
+
+Theorem mps_layer_cost_affine_w thin thw c j h : (j < length thw)%nat ->
+  Forall (fun row => length row = length thw) c -> length thin = length c ->
+  mps_layer_cost thin (upd thw j (nth j thw 0 + h)) c ==
+  mps_layer_cost thin thw c + h * mix_cost thin (map (fun row => nth j row 0) c).
+Proof.
+  intros Hj Hc _. unfold mps_layer_cost. apply mix_cost_map_affine.
+  intros r Hr. rewrite Forall_forall in Hc. apply mix_cost_affine; [exact Hj|]. symmetry. apply Hc, Hr.
+Qed.
+
+Theorem mps_layer_cost_nonneg thin thw c : Forall (fun x => 0 <= x) thin -> Forall (fun x => 0 <= x) thw ->
+  Forall (fun row => Forall (fun x => 0 <= x) row) c -> 0 <= mps_layer_cost thin thw c.
+Proof.
+  intros Hi Hw Hc. unfold mps_layer_cost. apply mix_cost_nonneg; [exact Hi|].
+  apply Forall_forall. intros x Hx. apply in_map_iff in Hx as [row [<- Hrow]].
+  rewrite Forall_forall in Hc. apply mix_cost_nonneg; [exact Hw|apply Hc, Hrow].
+Qed.
+
+Lemma mix_cost_between w c lo hi : length w = length c -> Forall (fun x => 0 < x) w ->
+  Forall (fun x => lo <= x <= hi) c -> lo * qsum w <= mix_cost w c <= hi * qsum w.
+Proof.
+  intros Hl Hw. revert c Hl. induction Hw as [|x w Hx _ IH]; intros c Hl Hc.
+  - rewrite mix_cost_nil_l, qsum_nil. lra.
+  - destruct Hc as [|y c Hy Hc]; [cbn in Hl; lia|].
+    rewrite mix_cost_cons, qsum_cons. specialize (IH c ltac:(cbn in Hl; lia) Hc). nra.
+Qed.
+
+Lemma qsum_pos w : w <> [] -> Forall (fun x => 0 < x) w -> 0 < qsum w.
+Proof.
+  intros Hne H. destruct H as [|x w Hx Hw]; [congruence|].
+  rewrite qsum_cons. assert (0 <= qsum w); [|lra].
+  apply qsum_nonneg. eapply Forall_impl; [|exact Hw]. intros a Ha. cbv beta in Ha. lra.
+Qed.
+
+Theorem odimo_reduction_between w c lo hi : length w = length c -> w <> [] -> Forall (fun x => 0 < x) w ->
+  Forall (fun x => lo <= x <= hi) c -> lo <= wavg w c <= hi.
+Proof.
+  intros Hl Hne Hw Hc. pose proof (qsum_pos w Hne Hw) as Hp.
+  pose proof (mix_cost_between w c lo hi Hl Hw Hc) as [H1 H2]. unfold wavg. split.
+  - apply Qle_shift_div_l; assumption.
+  - apply Qle_shift_div_r; assumption.
+Qed.
+
+(* ================================================================ PART A: the value component of the dual
+   evaluation is the Q evaluation *)
+Lemma dv_dsum l : dv (dsum l) = qsum (map dv l).
+Proof. induction l as [|x l IH]; [reflexivity|]. cbn [map]. rewrite qsum_cons, <- IH. reflexivity. Qed.
+
+Lemma dd_dsum l : dd (dsum l) = qsum (map dd l).
+Proof. induction l as [|x l IH]; [reflexivity|]. cbn [map]. rewrite qsum_cons, <- IH. reflexivity. Qed.
+
+Lemma dsum_cons x l : dsum (x :: l) = dadd x (dsum l).
+Proof. reflexivity. Qed.
+
+Lemma dv_d_keep_alive l : map dv (d_keep_alive l) = keep_alive (map dv l).
+Proof.
+  induction l as [|x t IH]; [reflexivity|]. destruct t as [|y t]; [reflexivity|].
+  change (d_keep_alive (x :: y :: t)) with (dabs x :: d_keep_alive (y :: t)).
+  change (map dv (x :: y :: t)) with (dv x :: map dv (y :: t)).
+  change (map dv (dabs x :: d_keep_alive (y :: t))) with (qabs (dv x) :: map dv (d_keep_alive (y :: t))).
+  rewrite IH. reflexivity.
+Qed.
+
+Lemma d_keep_alive_length l : length (d_keep_alive l) = length l.
+Proof.
+  induction l as [|x t IH]; [reflexivity|]. destruct t as [|y t]; [reflexivity|].
+  change (d_keep_alive (x :: y :: t)) with (dabs x :: d_keep_alive (y :: t)). cbn [length]. rewrite IH. reflexivity.
+Qed.
+
+(* seed with a start offset (seed = seedk 0) *)
+Definition seedk (k : nat) (on : bool) (pos : nat) (p : list Q) : list dual :=
+  map (fun q => {| dv := snd q; dd := if on && Nat.eqb (fst q) pos then 1 else 0 |}) (combine (seq k (length p)) p).
+Lemma seed_seedk on pos p : seed on pos p = seedk 0 on pos p.
+Proof. reflexivity. Qed.
+Lemma seedk_cons k on pos x p :
+  seedk k on pos (x :: p) = {| dv := x; dd := if on && Nat.eqb k pos then 1 else 0 |} :: seedk (S k) on pos p.
+Proof. reflexivity. Qed.
+Lemma seedk_length k on pos p : length (seedk k on pos p) = length p.
+Proof. unfold seedk. rewrite map_length, combine_length, seq_length. apply Nat.min_id. Qed.
+Lemma seed_length on pos p : length (seed on pos p) = length p.
+Proof. apply seedk_length. Qed.
+
+Lemma dv_seedk k on pos p : map dv (seedk k on pos p) = p.
+Proof. revert k. induction p as [|x p IH]; intro k; [reflexivity|]. rewrite seedk_cons. cbn [map dv]. rewrite IH. reflexivity. Qed.
+Lemma dv_seed on pos p : map dv (seed on pos p) = p.
+Proof. apply dv_seedk. Qed.
+
+Lemma dv_d_theta_beta b : map dv (d_theta_beta b) = theta_beta (map dv b).
+Proof.
+  unfold d_theta_beta, theta_beta. rewrite map_map, map_length. apply map_ext. intro t.
+  rewrite dv_dsum, <- firstn_map, dv_d_keep_alive. reflexivity.
+Qed.
+
+Lemma dv_d_theta_gamma_at ka d : dv (d_theta_gamma_at ka d) = theta_gamma_at (map dv ka) d.
+Proof.
+  unfold d_theta_gamma_at, theta_gamma_at. rewrite dv_dsum, map_map, map_length. f_equal. apply map_ext. intro i.
+  destruct (Nat.eqb (d mod 2 ^ i) 0); [|reflexivity]. symmetry. exact (map_nth dv ka (dconst 0) i).
+Qed.
+
+Lemma dv_d_theta_gamma K g : map dv (d_theta_gamma K g) = theta_gamma true K (map dv g).
+Proof.
+  unfold d_theta_gamma, theta_gamma. rewrite map_map. apply map_ext. intro j.
+  rewrite dv_d_theta_gamma_at, dv_d_keep_alive. reflexivity.
+Qed.
+
+Lemma dv_dmul3 a b : map dv (dmul3 a b) = qmul3 (map dv a) (map dv b).
+Proof.
+  revert b. induction a as [|x a IH]; intro b; [reflexivity|]. destruct b as [|y b]; [reflexivity|].
+  unfold dmul3, qmul3. cbn [combine map fst snd]. f_equal. apply IH.
+Qed.
+
+Lemma dv_map_dconst l : map dv (map dconst l) = l.
+Proof. rewrite map_map. cbn [dv dconst]. apply map_id. Qed.
+
+Lemma dv_d_k_eff_cont K b g : dv (d_k_eff_cont K b g) = k_eff_cont true K (map dv b) (map dv g).
+Proof.
+  unfold d_k_eff_cont, k_eff_cont.
+  rewrite dv_dsum, !dv_dmul3, !dv_map_dconst, dv_d_theta_gamma, dv_d_theta_beta. reflexivity.
+Qed.
+
+Lemma dv_d_out_eff w j m : dv (d_out_eff w j m) = out_eff m.
+Proof.
+  unfold d_out_eff, out_eff, theta_of. destruct (m_frozen m); [reflexivity|].
+  rewrite dv_dsum, dv_d_keep_alive, dv_seed. reflexivity.
+Qed.
+
+Lemma dv_d_mask_eff w ms j : dv (d_mask_eff w ms j) = mask_eff ms j.
+Proof. apply dv_d_out_eff. Qed.
+
+Lemma dv_d_in_eff w ms a : dv (d_in_eff w ms a) = in_eff ms a.
+Proof.
+  unfold d_in_eff, in_eff. cbn [dv dadd dconst]. f_equal. rewrite dv_dsum, map_map. f_equal. apply map_ext. intro p.
+  cbn [dv dmul dconst]. rewrite dv_d_mask_eff. reflexivity.
+Qed.
+
+Lemma dv_d_k_eff w li t : dv (d_k_eff w li t) = k_eff t.
+Proof. destruct t as [t|]; [|reflexivity]. cbn [d_k_eff k_eff]. rewrite dv_d_k_eff_cont, !dv_seed. reflexivity. Qed.
+
+Lemma dv_d_std_f s a b c : dv (d_std_f s a b c) = std_f s (dv a) (dv b) (dv c).
+Proof. unfold d_std_f, std_f. destruct (s_dw s); reflexivity. Qed.
+
+Lemma dv_d_gap8_f s a b c : dv (d_gap8_f s a b c) == gap8_f s (dv a) (dv b) (dv c).
+Proof. unfold d_gap8_f, gap8_f. destruct (g_kind s); cbn [dv dmul dadd dconst dfl]; ring. Qed.
+
+Section ValueEq.
+  Variable St : Type.
+  Variable df : St -> dual -> dual -> dual -> dual.
+  Variable f : St -> Q -> Q -> Q -> Q.
+  Hypothesis df_f : forall s a b c, dv (df s a b c) = f s (dv a) (dv b) (dv c).
+  Lemma dv_d_layer_cost_eq w ms il : dv (d_layer_cost df w ms il) = layer_cost f ms (snd il).
+  Proof. unfold d_layer_cost, layer_cost. rewrite df_f, dv_d_in_eff, dv_d_mask_eff, dv_d_k_eff. reflexivity. Qed.
+  Theorem d_pit_cost_value_eq w n : dv (d_pit_cost df w n) = pit_cost f n.
+  Proof.
+    unfold d_pit_cost, pit_cost. rewrite dv_dsum, map_map. f_equal. generalize 0%nat.
+    induction (n_layers n) as [|l ls IH]; intro k; [reflexivity|].
+    cbn [length seq combine map]. rewrite dv_d_layer_cost_eq, IH. reflexivity.
+  Qed.
+End ValueEq.
+
+Section ValueQeq.
+  Variable St : Type.
+  Variable df : St -> dual -> dual -> dual -> dual.
+  Variable f : St -> Q -> Q -> Q -> Q.
+  Hypothesis df_f : forall s a b c, dv (df s a b c) == f s (dv a) (dv b) (dv c).
+  Lemma dv_d_layer_cost_qeq w ms il : dv (d_layer_cost df w ms il) == layer_cost f ms (snd il).
+  Proof. unfold d_layer_cost, layer_cost. rewrite df_f, dv_d_in_eff, dv_d_mask_eff, dv_d_k_eff. reflexivity. Qed.
+  Theorem d_pit_cost_value_qeq w n : dv (d_pit_cost df w n) == pit_cost f n.
+  Proof.
+    unfold d_pit_cost, pit_cost. rewrite dv_dsum, map_map. generalize 0%nat.
+    induction (n_layers n) as [|l ls IH]; intro k; [reflexivity|].
+    cbn [length seq combine map]. rewrite !qsum_cons, dv_d_layer_cost_qeq, IH. reflexivity.
+  Qed.
+End ValueQeq.
+
+Theorem d_pit_cost_value_std w n : dv (d_pit_cost d_std_f w n) = pit_cost std_f n.
+Proof. apply d_pit_cost_value_eq. apply dv_d_std_f. Qed.
+
+Theorem d_pit_cost_value_gap8 w n : dv (d_pit_cost d_gap8_f w n) == pit_cost gap8_f n.
+Proof. apply d_pit_cost_value_qeq. apply dv_d_gap8_f. Qed.
+
+(* ================================================================ the built-in cost formulas satisfy the
+   abstract hypotheses (f_nonneg, f_mono) of Proofs/CostGrad.v *)
+Lemma mul_mono a a' b b' : 0 <= a <= a' -> 0 <= b <= b' -> 0 <= a * b <= a' * b'.
+Proof. intros [H1 H2] [H3 H4]. split; nra. Qed.
+Lemma add_mono a a' b b' : 0 <= a <= a' -> 0 <= b <= b' -> 0 <= a + b <= a' + b'.
+Proof. intros [H1 H2] [H3 H4]. split; lra. Qed.
+Lemma cst_mono a : 0 <= a -> 0 <= a <= a.
+Proof. intro H. split; [exact H|apply Qle_refl]. Qed.
+
+Lemma std_f_mono0 s a b c a' b' c' : wf_std s -> 0 <= a <= a' -> 0 <= b <= b' -> 0 <= c <= c' ->
+  0 <= std_f s a b c <= std_f s a' b' c'.
+Proof.
+  intros [Ho [Hb Hk]] Ha Hbb Hc. unfold std_f. destruct (s_dw s).
+  - apply mul_mono; [apply cst_mono, Ho|]. apply mul_mono; [exact Ha|]. apply add_mono; [|apply cst_mono, Hb].
+    apply mul_mono; [exact Hc|apply cst_mono, Hk].
+  - apply mul_mono; [apply cst_mono, Ho|]. apply mul_mono; [exact Hbb|]. apply add_mono; [|apply cst_mono, Hb].
+    apply mul_mono; [exact Ha|]. apply mul_mono; [exact Hc|apply cst_mono, Hk].
+Qed.
+
+Lemma std_f_nonneg s a b c : wf_std s -> 0 <= a -> 0 <= b -> 0 <= c -> 0 <= std_f s a b c.
+Proof. intros H Ha Hb Hc. apply (std_f_mono0 s a b c a b c H); apply cst_mono; assumption. Qed.
+
+Lemma std_f_mono s a b c a' b' c' : wf_std s -> 0 <= a <= a' -> 0 <= b <= b' -> 0 <= c <= c' ->
+  std_f s a b c <= std_f s a' b' c'.
+Proof. intros H Ha Hb Hc. apply (std_f_mono0 s a b c a' b' c' H Ha Hb Hc). Qed.
+
+Definition wf_g8 (s : g8) : Prop := 0 <= g_kx s /\ 0 <= g_ky s /\ 0 <= g_ox s /\ 0 <= g_oy s.
+
+Lemma fl_mono0 x y n : (1 <= n)%Z -> 0 <= x <= y -> 0 <= fl x n <= fl y n.
+Proof.
+  intros Hn [H0 Hxy]. unfold fl.
+  assert (Hq : 1 <= inject_Z n) by (change 1 with (inject_Z 1); rewrite <- Zle_Qle; exact Hn).
+  assert (Hi : 0 <= / inject_Z n) by (apply Qinv_le_0_compat; lra).
+  assert (Hx : 0 <= (x + inject_Z n - 1) / inject_Z n).
+  { unfold Qdiv. apply Qmult_le_0_compat; [lra|exact Hi]. }
+  assert (Hle : (x + inject_Z n - 1) / inject_Z n <= (y + inject_Z n - 1) / inject_Z n).
+  { unfold Qdiv. apply Qmult_le_compat_r; [lra|exact Hi]. }
+  split.
+  - change 0 with (inject_Z 0). rewrite <- Zle_Qle. change 0%Z with (Qfloor 0). apply Qfloor_resp_le. exact Hx.
+  - rewrite <- Zle_Qle. apply Qfloor_resp_le. exact Hle.
+Qed.
+
+Lemma gap8_f_mono0 s a b c a' b' c' : wf_g8 s -> 0 <= a <= a' -> 0 <= b <= b' -> 0 <= c <= c' ->
+  0 <= gap8_f s a b c <= gap8_f s a' b' c'.
+Proof.
+  intros [Hkx [Hky [Hox Hoy]]] Ha Hb Hc. unfold gap8_f.
+  assert (Hp : 0 <= g_kx s * g_ky s <= g_kx s * g_ky s) by (apply cst_mono, Qmult_le_0_compat; assumption).
+  assert (Hpa : 0 <= g_kx s * g_ky s * a <= g_kx s * g_ky s * a') by (apply mul_mono; assumption).
+  pose proof (fl_mono0 b b' 4 ltac:(lia) Hb) as Hfb.
+  pose proof (fl_mono0 a a' 2 ltac:(lia) Ha) as Hfa.
+  pose proof (fl_mono0 _ _ 4 ltac:(lia) Hpa) as Hfpa.
+  pose proof (fl_mono0 _ _ 2 ltac:(lia) (cst_mono _ Hox)) as Hfox.
+  pose proof (fl_mono0 _ _ 8 ltac:(lia) (cst_mono _ Hoy)) as Hfoy.
+  destruct (g_kind s).
+  - apply mul_mono; [apply mul_mono; assumption|]. apply add_mono.
+    + apply mul_mono; [exact Hpa|apply cst_mono; lra].
+    + apply mul_mono; [exact Hfb|]. apply add_mono; [|apply cst_mono; lra]. apply add_mono; [apply cst_mono; lra|].
+      apply mul_mono; [exact Hfpa|apply cst_mono; lra].
+  - repeat (apply mul_mono; [|apply cst_mono; assumption]). apply mul_mono; [apply cst_mono; lra|exact Hfb].
+  - apply mul_mono; assumption.
+Qed.
+
+Lemma gap8_f_nonneg s a b c : wf_g8 s -> 0 <= a -> 0 <= b -> 0 <= c -> 0 <= gap8_f s a b c.
+Proof. intros H Ha Hb Hc. apply (gap8_f_mono0 s a b c a b c H); apply cst_mono; assumption. Qed.
+
+Lemma gap8_f_mono s a b c a' b' c' : wf_g8 s -> 0 <= a <= a' -> 0 <= b <= b' -> 0 <= c <= c' ->
+  gap8_f s a b c <= gap8_f s a' b' c'.
+Proof. intros H Ha Hb Hc. apply (gap8_f_mono0 s a b c a' b' c' H Ha Hb Hc). Qed.
+
+(* ================================================================ PART B: sign of the derivative *)
+Lemma qsgn_cases x : (0 < x /\ qsgn x = 1) \/ (x < 0 /\ qsgn x = -1) \/ (x == 0 /\ qsgn x = 0).
+Proof.
+  unfold qsgn. destruct (qlt_bool 0 x) eqn:E1.
+  - left. split; [apply qlt_bool_iff; exact E1|reflexivity].
+  - destruct (qlt_bool x 0) eqn:E2.
+    + right. left. split; [apply qlt_bool_iff; exact E2|reflexivity].
+    + right. right. split; [|reflexivity].
+      destruct (Qlt_le_dec 0 x) as [H|H]; [apply qlt_bool_iff in H; congruence|].
+      destruct (Qlt_le_dec x 0) as [H'|H']; [apply qlt_bool_iff in H'; congruence|]. lra.
+Qed.
+
+Definition dgood (s : Q) (a : dual) : Prop := 0 <= dv a /\ 0 <= s * dd a.
+Definition dstrict (s : Q) (a : dual) : Prop := dgood s a /\ 0 < s * dd a.
+Definition dzero (a : dual) : Prop := dd a == 0.
+
+Lemma dgood_const s c : 0 <= c -> dgood s (dconst c).
+Proof. intro H. split; cbn [dv dd dconst]; [exact H|]. assert (E : s * 0 == 0) by ring. rewrite E. lra. Qed.
+Lemma dgood_add s a b : dgood s a -> dgood s b -> dgood s (dadd a b).
+Proof. intros [H1 H2] [H3 H4]. split; cbn [dv dd dadd]; [lra|]. assert (E : s * (dd a + dd b) == s * dd a + s * dd b) by ring. rewrite E. lra. Qed.
+Lemma dgood_mul s a b : dgood s a -> dgood s b -> dgood s (dmul a b).
+Proof.
+  intros [H1 H2] [H3 H4]. split; cbn [dv dd dmul]; [apply Qmult_le_0_compat; assumption|].
+  assert (E : s * (dd a * dv b + dv a * dd b) == (s * dd a) * dv b + dv a * (s * dd b)) by ring. rewrite E.
+  pose proof (Qmult_le_0_compat _ _ H2 H3). pose proof (Qmult_le_0_compat _ _ H1 H4). lra.
+Qed.
+
+Lemma dstrict_add s a b : dstrict s a -> dgood s b -> dstrict s (dadd a b).
+Proof.
+  intros [Ha Hs] Hb. split; [apply dgood_add; assumption|]. destruct Hb as [_ Hb]. cbn [dd dadd].
+  assert (E : s * (dd a + dd b) == s * dd a + s * dd b) by ring. rewrite E. lra.
+Qed.
+Lemma dstrict_add_r s a b : dgood s a -> dstrict s b -> dstrict s (dadd a b).
+Proof.
+  intros Ha [Hb Hs]. split; [apply dgood_add; assumption|]. destruct Ha as [_ Ha]. cbn [dd dadd].
+  assert (E : s * (dd a + dd b) == s * dd a + s * dd b) by ring. rewrite E. lra.
+Qed.
+Lemma dstrict_mul_l s a b : dstrict s a -> dgood s b -> 0 < dv b -> dstrict s (dmul a b).
+Proof.
+  intros [Ha Hs] Hb Hp. split; [apply dgood_mul; assumption|]. destruct Ha as [H1 H2], Hb as [H3 H4]. cbn [dd dmul].
+  assert (E : s * (dd a * dv b + dv a * dd b) == (s * dd a) * dv b + dv a * (s * dd b)) by ring. rewrite E.
+  pose proof (Qmult_lt_0_compat _ _ Hs Hp). pose proof (Qmult_le_0_compat _ _ H1 H4). lra.
+Qed.
+Lemma dstrict_mul_r s a b : dgood s a -> 0 < dv a -> dstrict s b -> dstrict s (dmul a b).
+Proof.
+  intros Ha Hp [Hb Hs]. split; [apply dgood_mul; assumption|]. destruct Ha as [H1 H2], Hb as [H3 H4]. cbn [dd dmul].
+  assert (E : s * (dd a * dv b + dv a * dd b) == (s * dd a) * dv b + dv a * (s * dd b)) by ring. rewrite E.
+  pose proof (Qmult_le_0_compat _ _ H2 H3). pose proof (Qmult_lt_0_compat _ _ Hp Hs). lra.
+Qed.
+Lemma dv_dmul_pos a b : 0 < dv a -> 0 < dv b -> 0 < dv (dmul a b).
+Proof. intros. cbn [dv dmul]. apply Qmult_lt_0_compat; assumption. Qed.
+
+Lemma dzero_const c : dzero (dconst c).
+Proof. unfold dzero. reflexivity. Qed.
+Lemma dzero_add a b : dzero a -> dzero b -> dzero (dadd a b).
+Proof. unfold dzero. intros H1 H2. cbn [dd dadd]. rewrite H1, H2. ring. Qed.
+Lemma dzero_mul a b : dzero a -> dzero b -> dzero (dmul a b).
+Proof. unfold dzero. intros H1 H2. cbn [dd dmul]. rewrite H1, H2. ring. Qed.
+Lemma dzero_fl a n : dzero a -> dzero (dfl a n).
+Proof. unfold dzero. intro H. exact H. Qed.
+
+(* ---------------------------------------------------------------- generic closure argument *)
+Lemma Forall_firstn' {A} (P : A -> Prop) n l : Forall P l -> Forall P (firstn n l).
+Proof. intro H. revert n. induction H; intros [|n]; cbn [firstn]; constructor; auto. Qed.
+
+Section Closure.
+  Variable G : dual -> Prop.
+  Variable C : Q -> Prop.
+  Hypothesis C_nonneg : forall c, 0 <= c -> C c.
+  Hypothesis G_const : forall c, C c -> G (dconst c).
+  Hypothesis G_add : forall a b, G a -> G b -> G (dadd a b).
+  Hypothesis G_mul : forall a b, G a -> G b -> G (dmul a b).
+
+  Lemma G_zero : G (dconst 0).
+  Proof. apply G_const, C_nonneg. lra. Qed.
+  Lemma G_one : G (dconst 1).
+  Proof. apply G_const, C_nonneg. lra. Qed.
+  Lemma G_dsum l : Forall G l -> G (dsum l).
+  Proof. induction 1 as [|x l Hx _ IH]; [apply G_zero|]. rewrite dsum_cons. apply G_add; assumption. Qed.
+  Lemma G_dmul3 a b : Forall G a -> Forall G b -> Forall G (dmul3 a b).
+  Proof.
+    intro H. revert b. induction H as [|x a Hx _ IH]; intros b Hb; [constructor|].
+    destruct Hb as [|y b Hy Hb]; [constructor|]. unfold dmul3. cbn [combine map fst snd].
+    constructor; [apply G_mul; assumption|apply IH; assumption].
+  Qed.
+  Lemma G_nth l i : Forall G l -> G (nth i l (dconst 0)).
+  Proof. intro H. revert i. induction H; intros [|i]; cbn [nth]; auto using G_zero. Qed.
+  Lemma G_theta_beta b : Forall G (d_keep_alive b) -> Forall G (d_theta_beta b).
+  Proof.
+    intro H. unfold d_theta_beta. apply Forall_forall. intros x Hx. apply in_map_iff in Hx as [t [<- _]].
+    apply G_dsum, Forall_firstn', H.
+  Qed.
+  Lemma G_theta_gamma_at ka d : Forall G ka -> G (d_theta_gamma_at ka d).
+  Proof.
+    intro H. unfold d_theta_gamma_at. apply G_dsum, Forall_forall. intros x Hx. apply in_map_iff in Hx as [i [<- _]].
+    destruct (Nat.eqb (d mod 2 ^ i) 0); [apply G_nth, H|apply G_zero].
+  Qed.
+  Lemma G_theta_gamma K g : Forall G (d_keep_alive g) -> Forall G (d_theta_gamma K g).
+  Proof.
+    intro H. unfold d_theta_gamma. apply Forall_forall. intros x Hx. apply in_map_iff in Hx as [j [<- _]].
+    apply G_theta_gamma_at, H.
+  Qed.
+  Lemma G_consts l : Forall (fun x => 0 <= x) l -> Forall G (map dconst l).
+  Proof. induction 1; cbn [map]; constructor; [apply G_const, C_nonneg; assumption|assumption]. Qed.
+  Lemma G_k_eff_list K b g : Forall G (d_keep_alive b) -> Forall G (d_keep_alive g) ->
+    Forall G (dmul3 (dmul3 (d_theta_gamma K g) (map dconst (gamma_norm K))) (dmul3 (d_theta_beta b) (map dconst (beta_norm K)))).
+  Proof.
+    intros Hb Hg. apply G_dmul3; apply G_dmul3.
+    - apply G_theta_gamma, Hg.
+    - apply G_consts, gamma_norm_nonneg.
+    - apply G_theta_beta, Hb.
+    - apply G_consts, beta_norm_nonneg.
+  Qed.
+  Lemma G_k_eff_cont K b g : Forall G (d_keep_alive b) -> Forall G (d_keep_alive g) -> G (d_k_eff_cont K b g).
+  Proof. intros Hb Hg. unfold d_k_eff_cont. apply G_dsum, G_k_eff_list; assumption. Qed.
+
+  Lemma G_k_eff w li t :
+    (forall t', t = Some t' ->
+       Forall G (d_keep_alive (seed (fst (beta_on w li)) (snd (beta_on w li)) (t_beta t'))) /\
+       Forall G (d_keep_alive (seed (fst (gamma_on w li)) (snd (gamma_on w li)) (t_gamma t')))) ->
+    G (d_k_eff w li t).
+  Proof.
+    destruct t as [t|]; intro H; [|apply G_one]. destruct (H t eq_refl) as [Hb Hg].
+    cbn [d_k_eff]. apply G_k_eff_cont; assumption.
+  Qed.
+
+  Lemma G_out_eff w j m :
+    (m_frozen m = false -> Forall G (d_keep_alive (seed (fst (alpha_on w j)) (snd (alpha_on w j)) (m_alpha m)))) ->
+    G (d_out_eff w j m).
+  Proof.
+    intro H. unfold d_out_eff. destruct (m_frozen m).
+    - apply G_const, C_nonneg, qsum_nonneg. unfold theta_alpha_frozen. apply Forall_forall.
+      intros x Hx. apply in_map_iff in Hx as [y [<- _]]. lra.
+    - apply G_dsum, H. reflexivity.
+  Qed.
+
+  Definition Caff (a : affine) : Prop := C (fst a) /\ Forall (fun p => C (fst p)) (snd a).
+
+  Lemma G_in_eff w ms a : (forall j, G (d_mask_eff w ms j)) -> Caff a -> G (d_in_eff w ms a).
+  Proof.
+    intros Hm [H0 Hc]. unfold d_in_eff. apply G_add; [apply G_const, H0|]. apply G_dsum.
+    induction Hc as [|p l Hp _ IH]; cbn [map]; constructor; [|exact IH].
+    apply G_mul; [apply G_const, Hp|apply Hm].
+  Qed.
+
+  Definition Cstd (s : std) : Prop := C (s_osz s) /\ C (s_b s) /\ C (s_kc s).
+  Lemma G_std_f s a b c : Cstd s -> G a -> G b -> G c -> G (d_std_f s a b c).
+  Proof.
+    intros [Ho [Hb Hk]] Ga Gb Gc. unfold d_std_f. destruct (s_dw s); repeat (apply G_mul || apply G_add || (apply G_const; assumption) || assumption).
+  Qed.
+
+  Section Net.
+    Variable St : Type.
+    Variable df : St -> dual -> dual -> dual -> dual.
+    Variable Cst : St -> Prop.
+    Hypothesis df_G : forall s a b c, Cst s -> G a -> G b -> G c -> G (df s a b c).
+
+    Lemma G_layers_aux w ms (all : list (layer St)) :
+      (forall j, G (d_mask_eff w ms j)) ->
+      (forall li l, nth_error all li = Some l -> G (d_k_eff w li (l_time l))) ->
+      forall ls pre, all = pre ++ ls ->
+      Forall (fun l => Cst (l_s l) /\ Caff (l_in l)) ls ->
+      Forall G (map (d_layer_cost df w ms) (combine (seq (length pre) (length ls)) ls)).
+    Proof.
+      intros Hm Hk. induction ls as [|l ls IH]; intros pre E Hw; [constructor|].
+      cbn [length seq combine map]. inversion Hw as [|? ? [Hs Ha] Hw']; subst. constructor.
+      - unfold d_layer_cost. cbn [fst snd]. apply df_G; [exact Hs|apply G_in_eff; assumption|apply Hm|].
+        apply Hk. rewrite nth_error_app2 by lia. rewrite Nat.sub_diag. reflexivity.
+      - specialize (IH (pre ++ [l])). rewrite app_length in IH. cbn [length] in IH.
+        rewrite Nat.add_1_r in IH. apply IH; [rewrite <- app_assoc; reflexivity|exact Hw'].
+    Qed.
+
+    Theorem G_layers w (n : net St) :
+      (forall j, G (d_mask_eff w (n_maskers n) j)) ->
+      (forall li l, nth_error (n_layers n) li = Some l -> G (d_k_eff w li (l_time l))) ->
+      Forall (fun l => Cst (l_s l) /\ Caff (l_in l)) (n_layers n) ->
+      Forall G (map (d_layer_cost df w (n_maskers n)) (combine (seq 0 (length (n_layers n))) (n_layers n))).
+    Proof. intros Hm Hk Hw. apply (G_layers_aux w (n_maskers n) (n_layers n) Hm Hk (n_layers n) []); [reflexivity|exact Hw]. Qed.
+
+    Theorem G_pit_cost w (n : net St) :
+      (forall j, G (d_mask_eff w (n_maskers n) j)) ->
+      (forall li l, nth_error (n_layers n) li = Some l -> G (d_k_eff w li (l_time l))) ->
+      Forall (fun l => Cst (l_s l) /\ Caff (l_in l)) (n_layers n) ->
+      G (d_pit_cost df w n).
+    Proof. intros Hm Hk Hw. unfold d_pit_cost. apply G_dsum, G_layers; assumption. Qed.
+  End Net.
+End Closure.
+
+(* ---------------------------------------------------------------- the keep-alive of a seeded vector *)
+Lemma dka_seedk_Forall (G : dual -> Prop) k on pos p :
+  G (dconst 1) ->
+  (forall j, (S j < length p)%nat ->
+     G (dabs {| dv := nth j p 0; dd := if on && Nat.eqb (k + j) pos then 1 else 0 |})) ->
+  Forall G (d_keep_alive (seedk k on pos p)).
+Proof.
+  intro H1. revert k. induction p as [|x p IH]; intros k H; [constructor|].
+  destruct p as [|y p]; [constructor; [exact H1|constructor]|].
+  rewrite seedk_cons.
+  change (d_keep_alive ({| dv := x; dd := if on && Nat.eqb k pos then 1 else 0 |} :: seedk (S k) on pos (y :: p)))
+    with (dabs {| dv := x; dd := if on && Nat.eqb k pos then 1 else 0 |} :: d_keep_alive (seedk (S k) on pos (y :: p))).
+  constructor.
+  - specialize (H 0%nat). rewrite Nat.add_0_r in H. apply H. cbn [length]. lia.
+  - apply IH. intros j Hj. specialize (H (S j)). rewrite Nat.add_succ_r in H. apply H. cbn [length] in *. lia.
+Qed.
+
+Lemma dka_seedk_nth k on pos p j : (S j < length p)%nat ->
+  nth j (d_keep_alive (seedk k on pos p)) (dconst 0) =
+  dabs {| dv := nth j p 0; dd := if on && Nat.eqb (k + j) pos then 1 else 0 |}.
+Proof.
+  revert k j. induction p as [|x p IH]; intros k j Hj; [cbn in Hj; lia|].
+  destruct p as [|y p]; [cbn in Hj; lia|].
+  rewrite seedk_cons.
+  change (d_keep_alive ({| dv := x; dd := if on && Nat.eqb k pos then 1 else 0 |} :: seedk (S k) on pos (y :: p)))
+    with (dabs {| dv := x; dd := if on && Nat.eqb k pos then 1 else 0 |} :: d_keep_alive (seedk (S k) on pos (y :: p))).
+  destruct j as [|j]; [rewrite Nat.add_0_r; reflexivity|].
+  cbn [nth]. rewrite IH by (cbn [length] in *; lia). rewrite Nat.add_succ_r. reflexivity.
+Qed.
+
+Lemma dgood_dabs_seed s x (c : bool) : (c = true -> s = qsgn x) ->
+  dgood s (dabs {| dv := x; dd := if c then 1 else 0 |}).
+Proof.
+  intro H. split; cbn [dv dd dabs]; [apply qabs_nonneg|]. destruct c.
+  - rewrite (H eq_refl). destruct (qsgn_cases x) as [[_ E]|[[_ E]|[_ E]]]; rewrite E; lra.
+  - assert (E : s * (qsgn x * 0) == 0) by ring. rewrite E. lra.
+Qed.
+
+Lemma dstrict_dabs_seed s x : s = qsgn x -> ~ x == 0 -> dstrict s (dabs {| dv := x; dd := 1 |}).
+Proof.
+  intros E Hx. split; [apply (dgood_dabs_seed s x true); intros _; exact E|]. cbn [dv dd dabs]. rewrite E.
+  destruct (qsgn_cases x) as [[_ E']|[[_ E']|[H0 _]]]; [rewrite E'; lra|rewrite E'; lra|contradiction].
+Qed.
+
+Lemma dzero_dabs_seed x (c : bool) : (c = true -> x == 0) -> dzero (dabs {| dv := x; dd := if c then 1 else 0 |}).
+Proof.
+  intro H. unfold dzero. cbn [dv dd dabs]. destruct c; [|ring].
+  destruct (qsgn_cases x) as [[H0 _]|[[H0 _]|[_ E]]]; [specialize (H eq_refl); lra|specialize (H eq_refl); lra|rewrite E; ring].
+Qed.
+
+Lemma seed_good s on pos p : (on = true -> (S pos < length p)%nat -> s = qsgn (nth pos p 0)) ->
+  Forall (dgood s) (d_keep_alive (seed on pos p)).
+Proof.
+  intro H. rewrite seed_seedk. apply dka_seedk_Forall; [apply dgood_const; lra|]. intros j Hj.
+  apply dgood_dabs_seed. intro Hc. apply andb_prop in Hc as [Hon Hp]. apply Nat.eqb_eq in Hp. cbn [plus] in Hp. subst j.
+  apply H; assumption.
+Qed.
+
+Lemma seed_zero on pos p : (on = true -> (S pos < length p)%nat -> nth pos p 0 == 0) ->
+  Forall dzero (d_keep_alive (seed on pos p)).
+Proof.
+  intro H. rewrite seed_seedk. apply dka_seedk_Forall; [apply dzero_const|]. intros j Hj.
+  apply dzero_dabs_seed. intro Hc. apply andb_prop in Hc as [Hon Hp]. apply Nat.eqb_eq in Hp. cbn [plus] in Hp. subst j.
+  apply H; assumption.
+Qed.
+
+Lemma dsum_strict_nth s l j : Forall (dgood s) l -> (j < length l)%nat -> dstrict s (nth j l (dconst 0)) -> dstrict s (dsum l).
+Proof.
+  intro H. revert j. induction H as [|x l Hx Hl IH]; intros j Hj Hs; [cbn in Hj; lia|].
+  rewrite dsum_cons. destruct j as [|j]; cbn [nth] in Hs.
+  - apply dstrict_add; [exact Hs|]. apply (G_dsum (dgood s) (fun c => 0 <= c)); auto using dgood_const, dgood_add.
+  - apply dstrict_add_r; [exact Hx|]. apply (IH j); [cbn [length] in Hj; lia|exact Hs].
+Qed.
+
+Lemma dsum_strict_In s l a : Forall (dgood s) l -> In a l -> dstrict s a -> dstrict s (dsum l).
+Proof.
+  intros H Hin Hs. destruct (In_nth _ _ (dconst 0) Hin) as [j [Hj E]]. apply (dsum_strict_nth s l j H Hj). rewrite E. exact Hs.
+Qed.
+
+Lemma seed_strict s pos p : (S pos < length p)%nat -> ~ nth pos p 0 == 0 -> s = qsgn (nth pos p 0) ->
+  dstrict s (dsum (d_keep_alive (seed true pos p))).
+Proof.
+  intros Hp Hx Es. apply (dsum_strict_nth s _ pos).
+  - apply seed_good. intros _ _. exact Es.
+  - rewrite d_keep_alive_length, seed_length. lia.
+  - rewrite seed_seedk, dka_seedk_nth by exact Hp. cbn [plus andb]. rewrite Nat.eqb_refl. apply dstrict_dabs_seed; assumption.
+Qed.
+
+(* ---------------------------------------------------------------- the scalar element named by a pid *)
+Definition pvec {St} (n : net St) (w : pid) : list Q :=
+  match w with
+  | PAlpha m _ => m_alpha (nth m (n_maskers n) dflt_masker)
+  | PBeta l _ => match nth_error (n_layers n) l with
+                 | Some ly => match l_time ly with Some t => t_beta t | None => [] end | None => [] end
+  | PGamma l _ => match nth_error (n_layers n) l with
+                  | Some ly => match l_time ly with Some t => t_gamma t | None => [] end | None => [] end
+  end.
+Definition pidx (w : pid) : nat := match w with PAlpha _ i => i | PBeta _ i => i | PGamma _ i => i end.
+Definition pval {St} (n : net St) (w : pid) : Q :=
+  match w with
+  | PAlpha m i => nth i (m_alpha (nth m (n_maskers n) dflt_masker)) 0
+  | PBeta l i => match nth_error (n_layers n) l with
+                 | Some ly => match l_time ly with Some t => nth i (t_beta t) 0 | None => 0 end | None => 0 end
+  | PGamma l i => match nth_error (n_layers n) l with
+                  | Some ly => match l_time ly with Some t => nth i (t_gamma t) 0 | None => 0 end | None => 0 end
+  end.
+Lemma pval_pvec {St} (n : net St) w : pval n w = nth (pidx w) (pvec n w) 0.
+Proof.
+  destruct w as [m i|l i|l i]; cbn [pval pvec pidx]; [reflexivity| |];
+    destruct (nth_error (n_layers n) l) as [ly|]; try (destruct i; reflexivity);
+    destruct (l_time ly); try reflexivity; destruct i; reflexivity.
+Qed.
+
+(* the three seeded vectors of the computation, in terms of pvec / pidx *)
+Lemma alpha_seed_cases {St} (n : net St) w j :
+  fst (alpha_on w j) = true ->
+  m_alpha (nth j (n_maskers n) dflt_masker) = pvec n w /\ snd (alpha_on w j) = pidx w /\ w = PAlpha j (pidx w).
+Proof.
+  destruct w as [m i|l i|l i]; cbn [alpha_on fst snd pvec pidx]; try discriminate.
+  intro H. apply Nat.eqb_eq in H. subst. repeat split.
+Qed.
+Lemma beta_seed_cases {St} (n : net St) w li l t :
+  nth_error (n_layers n) li = Some l -> l_time l = Some t -> fst (beta_on w li) = true ->
+  t_beta t = pvec n w /\ snd (beta_on w li) = pidx w /\ w = PBeta li (pidx w).
+Proof.
+  intros Hl Ht. destruct w as [m i|l0 i|l0 i]; cbn [beta_on fst snd pvec pidx]; try discriminate.
+  intro H. apply Nat.eqb_eq in H. subst. rewrite Hl, Ht. repeat split.
+Qed.
+Lemma gamma_seed_cases {St} (n : net St) w li l t :
+  nth_error (n_layers n) li = Some l -> l_time l = Some t -> fst (gamma_on w li) = true ->
+  t_gamma t = pvec n w /\ snd (gamma_on w li) = pidx w /\ w = PGamma li (pidx w).
+Proof.
+  intros Hl Ht. destruct w as [m i|l0 i|l0 i]; cbn [gamma_on fst snd pvec pidx]; try discriminate.
+  intro H. apply Nat.eqb_eq in H. subst. rewrite Hl, Ht. repeat split.
+Qed.
+
+(* every keep-alive list of the computation satisfies G as soon as the one of the seeded vector does *)
+Section Seeds.
+  Variable St : Type.
+  Variable n : net St.
+  Variable w : pid.
+  Variable G : dual -> Prop.
+  Hypothesis G_seed : forall on, Forall G (d_keep_alive (seed on (pidx w) (pvec n w))).
+  Hypothesis G_off : forall pos p, Forall G (d_keep_alive (seed false pos p)).
+
+  Lemma seeds_alpha j :
+    Forall G (d_keep_alive (seed (fst (alpha_on w j)) (snd (alpha_on w j)) (m_alpha (nth j (n_maskers n) dflt_masker)))).
+  Proof.
+    destruct (fst (alpha_on w j)) eqn:E; [|apply G_off].
+    destruct (alpha_seed_cases n w j E) as [-> [-> _]]. apply G_seed.
+  Qed.
+  Lemma seeds_beta li l t : nth_error (n_layers n) li = Some l -> l_time l = Some t ->
+    Forall G (d_keep_alive (seed (fst (beta_on w li)) (snd (beta_on w li)) (t_beta t))).
+  Proof.
+    intros Hl Ht. destruct (fst (beta_on w li)) eqn:E; [|apply G_off].
+    destruct (beta_seed_cases n w li l t Hl Ht E) as [-> [-> _]]. apply G_seed.
+  Qed.
+  Lemma seeds_gamma li l t : nth_error (n_layers n) li = Some l -> l_time l = Some t ->
+    Forall G (d_keep_alive (seed (fst (gamma_on w li)) (snd (gamma_on w li)) (t_gamma t))).
+  Proof.
+    intros Hl Ht. destruct (fst (gamma_on w li)) eqn:E; [|apply G_off].
+    destruct (gamma_seed_cases n w li l t Hl Ht E) as [-> [-> _]]. apply G_seed.
+  Qed.
+End Seeds.
+
+(* ---------------------------------------------------------------- T1: sign of the derivative *)
+Definition Cnn (c : Q) : Prop := 0 <= c.
+Lemma Cnn_nonneg c : 0 <= c -> Cnn c.
+Proof. intro H. exact H. Qed.
+
+Definition seeds_good {St} (s : Q) (n : net St) (w : pid) : Prop :=
+  forall on, Forall (dgood s) (d_keep_alive (seed on (pidx w) (pvec n w))).
+
+Lemma seeds_good_sgn {St} (n : net St) w : seeds_good (qsgn (pval n w)) n w.
+Proof. intro on. apply seed_good. intros _ _. rewrite pval_pvec. reflexivity. Qed.
+
+Lemma seed_off_good s pos p : Forall (dgood s) (d_keep_alive (seed false pos p)).
+Proof. apply seed_good. discriminate. Qed.
+
+Lemma dgood_mask {St} s (n : net St) w j : seeds_good s n w -> dgood s (d_mask_eff w (n_maskers n) j).
+Proof.
+  intro H. unfold d_mask_eff. apply (G_out_eff (dgood s) Cnn Cnn_nonneg (dgood_const s) (dgood_add s)).
+  intros _. apply seeds_alpha; [exact H|apply seed_off_good].
+Qed.
+
+Lemma dgood_in {St} s (n : net St) w a : seeds_good s n w -> wf_affine a -> dgood s (d_in_eff w (n_maskers n) a).
+Proof.
+  intros H Ha. apply (G_in_eff (dgood s) Cnn Cnn_nonneg (dgood_const s) (dgood_add s) (dgood_mul s)); [|exact Ha].
+  intro j. apply dgood_mask, H.
+Qed.
+
+Lemma dgood_k {St} s (n : net St) w li l : seeds_good s n w -> nth_error (n_layers n) li = Some l ->
+  dgood s (d_k_eff w li (l_time l)).
+Proof.
+  intros H Hl. apply (G_k_eff (dgood s) Cnn Cnn_nonneg (dgood_const s) (dgood_add s) (dgood_mul s)).
+  intros t Ht. split; [apply (seeds_beta St n w (dgood s) H (seed_off_good s) li l t Hl Ht)|
+                       apply (seeds_gamma St n w (dgood s) H (seed_off_good s) li l t Hl Ht)].
+Qed.
+
+Lemma wf_std_layers (n : net std) : wf_net n -> Forall (fun l => wf_std (l_s l)) (n_layers n) ->
+  Forall (fun l => Cstd Cnn (l_s l) /\ Caff Cnn (l_in l)) (n_layers n).
+Proof.
+  unfold wf_net. intros H1 H2. induction H1 as [|l ls Hl _ IH]; [constructor|].
+  inversion H2; subst. constructor; [split; [assumption|exact Hl]|apply IH; assumption].
+Qed.
+
+Lemma dgood_layers s (n : net std) w : wf_net n -> Forall (fun l => wf_std (l_s l)) (n_layers n) -> seeds_good s n w ->
+  Forall (dgood s) (map (d_layer_cost d_std_f w (n_maskers n)) (combine (seq 0 (length (n_layers n))) (n_layers n))).
+Proof.
+  intros Hw Hs H.
+  apply (G_layers (dgood s) Cnn Cnn_nonneg (dgood_const s) (dgood_add s) (dgood_mul s) std d_std_f (Cstd Cnn)).
+  - intros. apply (G_std_f (dgood s) Cnn (dgood_const s) (dgood_add s) (dgood_mul s)); assumption.
+  - intro j. apply dgood_mask, H.
+  - intros li l Hl. apply (dgood_k s n w li l H Hl).
+  - apply wf_std_layers; assumption.
+Qed.
+
+Lemma dgood_pit_cost s (n : net std) w : wf_net n -> Forall (fun l => wf_std (l_s l)) (n_layers n) -> seeds_good s n w ->
+  dgood s (d_pit_cost d_std_f w n).
+Proof.
+  intros Hw Hs H. unfold d_pit_cost. apply (G_dsum (dgood s) Cnn Cnn_nonneg (dgood_const s) (dgood_add s)).
+  apply dgood_layers; assumption.
+Qed.
+
+Theorem pit_grad_sign (n : net std) (w : pid) :
+  wf_net n -> Forall (fun l => wf_std (l_s l)) (n_layers n) ->
+  0 <= qsgn (pval n w) * dd (d_pit_cost d_std_f w n).
+Proof. intros Hw Hs. apply (dgood_pit_cost (qsgn (pval n w)) n w Hw Hs (seeds_good_sgn n w)). Qed.
+
+(* ---------------------------------------------------------------- T2: zero derivative *)
+Definition Ctrue (c : Q) : Prop := True.
+Lemma Ctrue_nonneg c : 0 <= c -> Ctrue c.
+Proof. intros _. exact I. Qed.
+Lemma dzero_const' c : Ctrue c -> dzero (dconst c).
+Proof. intros _. apply dzero_const. Qed.
+
+Lemma d_std_f_zero s a b c : dzero a -> dzero b -> dzero c -> dzero (d_std_f s a b c).
+Proof.
+  intros. apply (G_std_f dzero Ctrue dzero_const' dzero_add dzero_mul); try assumption. repeat split.
+Qed.
+Lemma d_gap8_f_zero s a b c : dzero a -> dzero b -> dzero c -> dzero (d_gap8_f s a b c).
+Proof.
+  intros Ha Hb Hc. unfold d_gap8_f.
+  destruct (g_kind s); repeat (apply dzero_mul || apply dzero_add || apply dzero_const || apply dzero_fl || assumption).
+Qed.
+
+Section ZeroNet.
+  Variable St : Type.
+  Variable df : St -> dual -> dual -> dual -> dual.
+  Hypothesis df_zero : forall s a b c, dzero a -> dzero b -> dzero c -> dzero (df s a b c).
+
+  Lemma dzero_pit_cost_gen w (n : net St) :
+    (forall j, m_frozen (nth j (n_maskers n) dflt_masker) = false ->
+       Forall dzero (d_keep_alive (seed (fst (alpha_on w j)) (snd (alpha_on w j)) (m_alpha (nth j (n_maskers n) dflt_masker))))) ->
+    (forall li l t, nth_error (n_layers n) li = Some l -> l_time l = Some t ->
+       Forall dzero (d_keep_alive (seed (fst (beta_on w li)) (snd (beta_on w li)) (t_beta t))) /\
+       Forall dzero (d_keep_alive (seed (fst (gamma_on w li)) (snd (gamma_on w li)) (t_gamma t)))) ->
+    dzero (d_pit_cost df w n).
+  Proof.
+    intros Ha Ht.
+    apply (G_pit_cost dzero Ctrue Ctrue_nonneg dzero_const' dzero_add dzero_mul St df (fun _ => True)).
+    - intros s a b c _. apply df_zero.
+    - intro j. unfold d_mask_eff. apply (G_out_eff dzero Ctrue Ctrue_nonneg dzero_const' dzero_add). apply Ha.
+    - intros li l Hl. apply (G_k_eff dzero Ctrue Ctrue_nonneg dzero_const' dzero_add dzero_mul).
+      intros t E. apply (Ht li l t Hl E).
+    - apply Forall_forall. intros l _. split; [exact I|]. split; [exact I|]. apply Forall_forall. intros p _. exact I.
+  Qed.
+
+  Lemma seed_off_zero pos p : Forall dzero (d_keep_alive (seed false pos p)).
+  Proof. apply seed_zero. discriminate. Qed.
+
+  (* the derivative with respect to an element that is 0, or is the keep-alive (last) element, or is out of range *)
+  Theorem pit_grad_zero_gen w (n : net St) :
+    ((S (pidx w) < length (pvec n w))%nat -> pval n w == 0) -> dd (d_pit_cost df w n) == 0.
+  Proof.
+    intro H.
+    assert (Hs : forall on, Forall dzero (d_keep_alive (seed on (pidx w) (pvec n w)))).
+    { intro on. apply seed_zero. intros _ Hi. rewrite <- pval_pvec. apply H, Hi. }
+    apply dzero_pit_cost_gen.
+    - intros j _. apply seeds_alpha; [exact Hs|exact seed_off_zero].
+    - intros li l t Hl Ht. split; [apply (seeds_beta St n w dzero Hs seed_off_zero li l t Hl Ht)|
+                                    apply (seeds_gamma St n w dzero Hs seed_off_zero li l t Hl Ht)].
+  Qed.
+
+  (* elements of a frozen masker *)
+  Theorem pit_grad_frozen_zero_gen m i (n : net St) :
+    m_frozen (nth m (n_maskers n) dflt_masker) = true -> dd (d_pit_cost df (PAlpha m i) n) == 0.
+  Proof.
+    intro Hf. apply dzero_pit_cost_gen.
+    - intros j Hj. cbn [alpha_on fst snd]. destruct (Nat.eqb_spec m j) as [E|_]; [subst; congruence|apply seed_off_zero].
+    - intros li l t _ _. cbn [beta_on gamma_on fst snd]. split; apply seed_off_zero.
+  Qed.
+End ZeroNet.
+
+Theorem pit_grad_zero_at_zero (n : net std) (w : pid) : pval n w == 0 -> dd (d_pit_cost d_std_f w n) == 0.
+Proof. intro H. apply (pit_grad_zero_gen std d_std_f d_std_f_zero). intros _. exact H. Qed.
+
+Theorem pit_grad_zero_at_zero_gap8 (n : net g8) (w : pid) : pval n w == 0 -> dd (d_pit_cost d_gap8_f w n) == 0.
+Proof. intro H. apply (pit_grad_zero_gen g8 d_gap8_f d_gap8_f_zero). intros _. exact H. Qed.
+
+Theorem pit_grad_keepalive_zero (n : net std) m i :
+  S i = length (m_alpha (nth m (n_maskers n) dflt_masker)) -> dd (d_pit_cost d_std_f (PAlpha m i) n) == 0.
+Proof. intro H. apply (pit_grad_zero_gen std d_std_f d_std_f_zero). cbn [pidx pvec]. lia. Qed.
+
+Theorem pit_grad_keepalive_zero_beta (n : net std) li i l t :
+  nth_error (n_layers n) li = Some l -> l_time l = Some t -> S i = length (t_beta t) ->
+  dd (d_pit_cost d_std_f (PBeta li i) n) == 0.
+Proof. intros Hl Ht H. apply (pit_grad_zero_gen std d_std_f d_std_f_zero). cbn [pidx pvec]. rewrite Hl, Ht. lia. Qed.
+
+Theorem pit_grad_keepalive_zero_gamma (n : net std) li i l t :
+  nth_error (n_layers n) li = Some l -> l_time l = Some t -> S i = length (t_gamma t) ->
+  dd (d_pit_cost d_std_f (PGamma li i) n) == 0.
+Proof. intros Hl Ht H. apply (pit_grad_zero_gen std d_std_f d_std_f_zero). cbn [pidx pvec]. rewrite Hl, Ht. lia. Qed.
+
+(* out of range index (any kind), frozen masker *)
+Theorem pit_grad_out_of_range_zero (n : net std) (w : pid) :
+  (length (pvec n w) <= pidx w)%nat -> dd (d_pit_cost d_std_f w n) == 0.
+Proof. intro H. apply (pit_grad_zero_gen std d_std_f d_std_f_zero). lia. Qed.
+
+Theorem pit_grad_frozen_zero (n : net std) m i :
+  m_frozen (nth m (n_maskers n) dflt_masker) = true -> dd (d_pit_cost d_std_f (PAlpha m i) n) == 0.
+Proof. apply (pit_grad_frozen_zero_gen std d_std_f d_std_f_zero). Qed.
+
+Lemma dgood_dsum s l : Forall (dgood s) l -> dgood s (dsum l).
+Proof. apply (G_dsum (dgood s) Cnn Cnn_nonneg (dgood_const s) (dgood_add s)). Qed.
+Lemma dgood_dmul3 s a b : Forall (dgood s) a -> Forall (dgood s) b -> Forall (dgood s) (dmul3 a b).
+Proof. apply (G_dmul3 (dgood s) (dgood_mul s)). Qed.
+Lemma dzero_dsum l : Forall dzero l -> dzero (dsum l).
+Proof. apply (G_dsum dzero Ctrue Ctrue_nonneg dzero_const' dzero_add). Qed.
+
+(* ---------------------------------------------------------------- T3 / T4: strict sign *)
+Lemma in_combine_seq {A} (ls : list A) k li l : nth_error ls li = Some l ->
+  In ((k + li)%nat, l) (combine (seq k (length ls)) ls).
+Proof.
+  revert k li. induction ls as [|x ls IH]; intros k [|li] H; cbn [nth_error] in H; try discriminate.
+  - injection H as ->. cbn [length seq combine]. left. rewrite Nat.add_0_r. reflexivity.
+  - cbn [length seq combine]. right. rewrite Nat.add_succ_r. apply (IH (S k) li H).
+Qed.
+
+Lemma std_f_strict_cout s st cin cout k : wf_std st -> s_dw st = false -> 0 < s_osz st ->
+  dgood s cin -> dstrict s cout -> dgood s k -> 0 < dv cin * (dv k * s_kc st) + s_b st ->
+  dstrict s (d_std_f st cin cout k).
+Proof.
+  intros [Ho [Hb Hk]] Hdw Hosz Hcin Hcout Hkk Hpos. unfold d_std_f. rewrite Hdw.
+  apply dstrict_mul_r; [apply dgood_const; exact Ho|exact Hosz|].
+  apply dstrict_mul_l; [exact Hcout| |exact Hpos].
+  apply dgood_add; [|apply dgood_const; exact Hb]. apply dgood_mul; [exact Hcin|].
+  apply dgood_mul; [exact Hkk|apply dgood_const; exact Hk].
+Qed.
+
+Lemma std_f_strict_k s st cin cout k : wf_std st -> 0 < s_osz st -> 0 < s_kc st ->
+  dgood s cin -> 0 < dv cin -> dgood s cout -> 0 < dv cout -> dstrict s k ->
+  dstrict s (d_std_f st cin cout k).
+Proof.
+  intros [Ho [Hb Hk]] Hosz Hkc Hcin Hcinp Hcout Hcoutp Hkk. unfold d_std_f.
+  assert (Hkk' : dstrict s (dmul k (dconst (s_kc st)))).
+  { apply dstrict_mul_l; [exact Hkk|apply dgood_const; exact Hk|exact Hkc]. }
+  destruct (s_dw st).
+  - apply dstrict_mul_r; [apply dgood_const; exact Ho|exact Hosz|].
+    apply dstrict_mul_r; [exact Hcin|exact Hcinp|]. apply dstrict_add; [exact Hkk'|apply dgood_const; exact Hb].
+  - apply dstrict_mul_r; [apply dgood_const; exact Ho|exact Hosz|].
+    apply dstrict_mul_r; [exact Hcout|exact Hcoutp|]. apply dstrict_add; [|apply dgood_const; exact Hb].
+    apply dstrict_mul_r; [exact Hcin|exact Hcinp|exact Hkk'].
+Qed.
+
+(* one strict layer makes the whole cost strict *)
+Lemma pit_strict_layer s (n : net std) w li l :
+  wf_net n -> Forall (fun l => wf_std (l_s l)) (n_layers n) -> seeds_good s n w ->
+  nth_error (n_layers n) li = Some l ->
+  dstrict s (d_layer_cost d_std_f w (n_maskers n) (li, l)) ->
+  dstrict s (d_pit_cost d_std_f w n).
+Proof.
+  intros Hw Hs H Hl Hst. unfold d_pit_cost.
+  apply (dsum_strict_In s _ (d_layer_cost d_std_f w (n_maskers n) (li, l))); [apply dgood_layers; assumption| |exact Hst].
+  apply in_map. apply (in_combine_seq (n_layers n) 0 li l Hl).
+Qed.
+
+Lemma wf_net_layer {St} (n : net St) li l : wf_net n -> nth_error (n_layers n) li = Some l -> wf_affine (l_in l).
+Proof. unfold wf_net. intros H Hl. rewrite Forall_forall in H. apply H. apply (nth_error_In _ _ Hl). Qed.
+
+Theorem pit_grad_pos_partial (n : net std) (m i : nat) (l : layer std) :
+  wf_net n -> Forall (fun l => wf_std (l_s l)) (n_layers n) ->
+  m_frozen (nth m (n_maskers n) dflt_masker) = false ->
+  (S i < length (m_alpha (nth m (n_maskers n) dflt_masker)))%nat ->
+  ~ pval n (PAlpha m i) == 0 ->
+  In l (n_layers n) -> l_mask l = m -> s_dw (l_s l) = false -> 0 < s_osz (l_s l) ->
+  0 < in_eff (n_maskers n) (l_in l) * (k_eff (l_time l) * s_kc (l_s l)) + s_b (l_s l) ->
+  0 < qsgn (pval n (PAlpha m i)) * dd (d_pit_cost d_std_f (PAlpha m i) n).
+Proof.
+  intros Hw Hs Hfr Hi Hx Hin Hm Hdw Hosz Hpos.
+  set (w := PAlpha m i) in *. set (s := qsgn (pval n w)).
+  assert (Hg : seeds_good s n w) by apply seeds_good_sgn.
+  destruct (In_nth_error _ _ Hin) as [li Hl].
+  assert (Hst : dstrict s (d_pit_cost d_std_f w n)); [|apply Hst].
+  apply (pit_strict_layer s n w li l Hw Hs Hg Hl).
+  unfold d_layer_cost. cbn [fst snd].
+  apply std_f_strict_cout.
+  - rewrite Forall_forall in Hs. apply Hs. apply (nth_error_In _ _ Hl).
+  - exact Hdw.
+  - exact Hosz.
+  - apply dgood_in; [exact Hg|apply (wf_net_layer n li l Hw Hl)].
+  - rewrite Hm. unfold d_mask_eff, d_out_eff. rewrite Hfr. unfold w. cbn [alpha_on fst snd]. rewrite Nat.eqb_refl.
+    apply seed_strict; [exact Hi|exact Hx|reflexivity].
+  - apply (dgood_k s n w li l Hg Hl).
+  - rewrite dv_d_in_eff, dv_d_k_eff. exact Hpos.
+Qed.
+
+(* ---- the effective kernel size is strictly increasing in |beta_i|, |gamma_i| *)
+Lemma dmul3_nth a b j : (j < length a)%nat -> (j < length b)%nat ->
+  nth j (dmul3 a b) (dconst 0) = dmul (nth j a (dconst 0)) (nth j b (dconst 0)).
+Proof.
+  revert b j. induction a as [|x a IH]; intros b j Ha Hb; [cbn in Ha; lia|]. destruct b as [|y b]; [cbn in Hb; lia|].
+  unfold dmul3. cbn [combine map fst snd]. destruct j as [|j]; [reflexivity|]. cbn [nth]. apply IH; cbn [length] in *; lia.
+Qed.
+Lemma dmul3_length a b : length (dmul3 a b) = Nat.min (length a) (length b).
+Proof. unfold dmul3. rewrite map_length, combine_length. reflexivity. Qed.
+Lemma d_theta_beta_length b : length (d_theta_beta b) = length b.
+Proof. unfold d_theta_beta. rewrite map_length, seq_length. reflexivity. Qed.
+Lemma d_theta_gamma_length K g : length (d_theta_gamma K g) = K.
+Proof. unfold d_theta_gamma. rewrite map_length, seq_length. reflexivity. Qed.
+Lemma beta_norm_length K : length (beta_norm K) = K.
+Proof. unfold beta_norm. rewrite map_length, seq_length. reflexivity. Qed.
+Lemma gamma_norm_length K : length (gamma_norm K) = K.
+Proof. unfold gamma_norm. rewrite map_length, seq_length. reflexivity. Qed.
+Lemma beta_norm_pos K j : (j < K)%nat -> 0 < nth j (beta_norm K) 0.
+Proof. intro H. unfold beta_norm. rewrite nth_map_seq by exact H. reflexivity. Qed.
+Lemma gamma_norm_pos K j : (j < K)%nat -> 0 < nth j (gamma_norm K) 0.
+Proof. intro H. unfold gamma_norm. rewrite nth_map_seq by exact H. reflexivity. Qed.
+
+Lemma d_theta_gamma_at_0 ka : d_theta_gamma_at ka 0 = dsum ka.
+Proof.
+  unfold d_theta_gamma_at. f_equal. apply (nth_ext _ _ (dconst 0) (dconst 0)).
+  - rewrite map_length, seq_length. reflexivity.
+  - intros i Hi. rewrite map_length, seq_length in Hi. rewrite nth_map_seq by exact Hi.
+    rewrite Nat.mod_0_l by (apply Nat.pow_nonzero; lia). reflexivity.
+Qed.
+
+Lemma qsum_keep_alive_pos p : (1 <= length p)%nat -> 1 <= qsum (keep_alive p).
+Proof.
+  intro H. pose proof (nth_le_qsum (keep_alive p) (length p - 1) (keep_alive_nonneg p)) as E.
+  rewrite keep_alive_last in E; [exact E|]. intro E'. subst. cbn in H. lia.
+Qed.
+
+Lemma dv_dsum_seed_pos on pos p : (1 <= length p)%nat -> 0 < dv (dsum (d_keep_alive (seed on pos p))).
+Proof. intro H. rewrite dv_dsum, dv_d_keep_alive, dv_seed. pose proof (qsum_keep_alive_pos p H). lra. Qed.
+
+Lemma k_eff_cont_strict s K B Gm :
+  (1 <= K)%nat -> length B = K -> (1 <= length Gm)%nat ->
+  Forall (dgood s) (d_keep_alive B) -> Forall (dgood s) (d_keep_alive Gm) ->
+  0 < dv (dsum (d_keep_alive B)) -> 0 < dv (dsum (d_keep_alive Gm)) ->
+  dstrict s (dsum (d_keep_alive B)) \/ dstrict s (dsum (d_keep_alive Gm)) ->
+  dstrict s (d_k_eff_cont K B Gm).
+Proof.
+  intros HK HB HG GB GG PB PG Hs. unfold d_k_eff_cont.
+  assert (L1 : length (d_theta_gamma K Gm) = K) by apply d_theta_gamma_length.
+  assert (L2 : length (map dconst (gamma_norm K)) = K) by (rewrite map_length; apply gamma_norm_length).
+  assert (L3 : length (d_theta_beta B) = K) by (rewrite d_theta_beta_length; exact HB).
+  assert (L4 : length (map dconst (beta_norm K)) = K) by (rewrite map_length; apply beta_norm_length).
+  assert (L5 : length (dmul3 (d_theta_gamma K Gm) (map dconst (gamma_norm K))) = K) by (rewrite dmul3_length, L1, L2; lia).
+  assert (L6 : length (dmul3 (d_theta_beta B) (map dconst (beta_norm K))) = K) by (rewrite dmul3_length, L3, L4; lia).
+  apply (dsum_strict_nth s _ (K - 1)%nat).
+  - apply (G_k_eff_list (dgood s) Cnn Cnn_nonneg (dgood_const s) (dgood_add s) (dgood_mul s)); assumption.
+  - rewrite dmul3_length, L5, L6. lia.
+  - rewrite dmul3_nth by lia. rewrite !dmul3_nth by lia.
+    rewrite !(map_nth dconst).
+    assert (Eg : nth (K - 1) (d_theta_gamma K Gm) (dconst 0) = dsum (d_keep_alive Gm)).
+    { unfold d_theta_gamma. rewrite nth_map_seq by lia. unfold dist. replace (K - 1 - (K - 1))%nat with 0%nat by lia.
+      apply d_theta_gamma_at_0. }
+    assert (Eb : nth (K - 1) (d_theta_beta B) (dconst 0) = dsum (d_keep_alive B)).
+    { unfold d_theta_beta. rewrite HB. rewrite nth_map_seq by lia. replace (S (K - 1)) with K by lia.
+      rewrite firstn_all2 by (rewrite d_keep_alive_length; lia). reflexivity. }
+    rewrite Eg, Eb.
+    pose proof (gamma_norm_pos K (K - 1) ltac:(lia)) as Pg. pose proof (beta_norm_pos K (K - 1) ltac:(lia)) as Pb.
+    set (cg := nth (K - 1) (gamma_norm K) 0) in *. set (cb := nth (K - 1) (beta_norm K) 0) in *.
+    assert (Gb : dgood s (dsum (d_keep_alive B))) by (apply (G_dsum (dgood s) Cnn Cnn_nonneg (dgood_const s) (dgood_add s)); exact GB).
+    assert (Gg : dgood s (dsum (d_keep_alive Gm))) by (apply (G_dsum (dgood s) Cnn Cnn_nonneg (dgood_const s) (dgood_add s)); exact GG).
+    assert (Gcg : dgood s (dconst cg)) by (apply dgood_const; lra).
+    assert (Gcb : dgood s (dconst cb)) by (apply dgood_const; lra).
+    destruct Hs as [Hs|Hs].
+    + apply dstrict_mul_r; [apply dgood_mul; assumption|apply dv_dmul_pos; [exact PG|exact Pg]|].
+      apply dstrict_mul_l; [exact Hs|exact Gcb|exact Pb].
+    + apply dstrict_mul_l; [|apply dgood_mul; assumption|apply dv_dmul_pos; [exact PB|exact Pb]].
+      apply dstrict_mul_l; [exact Hs|exact Gcg|exact Pg].
+Qed.
+
+
+(* common part of T4: a strict k_eff of layer li makes the cost strict *)
+Lemma pit_strict_from_k s (n : net std) w li l :
+  wf_net n -> Forall (fun l => wf_std (l_s l)) (n_layers n) -> seeds_good s n w ->
+  nth_error (n_layers n) li = Some l ->
+  0 < s_osz (l_s l) -> 0 < s_kc (l_s l) ->
+  0 < mask_eff (n_maskers n) (l_mask l) -> 0 < in_eff (n_maskers n) (l_in l) ->
+  dstrict s (d_k_eff w li (l_time l)) ->
+  dstrict s (d_pit_cost d_std_f w n).
+Proof.
+  intros Hw Hs Hg Hl Hosz Hkc Hm Hi Hk.
+  apply (pit_strict_layer s n w li l Hw Hs Hg Hl). unfold d_layer_cost. cbn [fst snd].
+  apply std_f_strict_k.
+  - rewrite Forall_forall in Hs. apply Hs. apply (nth_error_In _ _ Hl).
+  - exact Hosz.
+  - exact Hkc.
+  - apply dgood_in; [exact Hg|apply (wf_net_layer n li l Hw Hl)].
+  - rewrite dv_d_in_eff. exact Hi.
+  - apply dgood_mask, Hg.
+  - rewrite dv_d_mask_eff. exact Hm.
+  - exact Hk.
+Qed.
+
+Theorem pit_grad_pos_beta (n : net std) (li i : nat) (l : layer std) (t : tmask) :
+  wf_net n -> Forall (fun l => wf_std (l_s l)) (n_layers n) ->
+  nth_error (n_layers n) li = Some l -> l_time l = Some t ->
+  (1 <= t_K t)%nat -> length (t_beta t) = t_K t -> length (t_gamma t) = gamma_len (t_K t) ->
+  (S i < t_K t)%nat -> ~ pval n (PBeta li i) == 0 ->
+  0 < s_osz (l_s l) -> 0 < s_kc (l_s l) ->
+  0 < mask_eff (n_maskers n) (l_mask l) -> 0 < in_eff (n_maskers n) (l_in l) ->
+  0 < qsgn (pval n (PBeta li i)) * dd (d_pit_cost d_std_f (PBeta li i) n).
+Proof.
+  intros Hw Hs Hl Ht HK Hb Hgl Hi Hx Hosz Hkc Hm Hin.
+  set (w := PBeta li i) in *. set (s := qsgn (pval n w)).
+  assert (Hg : seeds_good s n w) by apply seeds_good_sgn.
+  assert (Ex : pval n w = nth i (t_beta t) 0) by (unfold w; cbn [pval]; rewrite Hl, Ht; reflexivity).
+  assert (Hst : dstrict s (d_pit_cost d_std_f w n)); [|apply Hst].
+  apply (pit_strict_from_k s n w li l Hw Hs Hg Hl Hosz Hkc Hm Hin).
+  rewrite Ht. unfold w. cbn [d_k_eff beta_on gamma_on fst snd]. rewrite Nat.eqb_refl.
+  pose proof (gamma_len_pos (t_K t)) as Hgp.
+  apply k_eff_cont_strict.
+  - exact HK.
+  - rewrite seed_length. exact Hb.
+  - rewrite seed_length, Hgl. exact Hgp.
+  - apply seed_good. intros _ _. unfold s. rewrite Ex. reflexivity.
+  - apply seed_off_good.
+  - apply dv_dsum_seed_pos. lia.
+  - apply dv_dsum_seed_pos. lia.
+  - left. apply seed_strict; [lia|rewrite <- Ex; exact Hx|unfold s; rewrite Ex; reflexivity].
+Qed.
+
+Theorem pit_grad_pos_gamma (n : net std) (li i : nat) (l : layer std) (t : tmask) :
+  wf_net n -> Forall (fun l => wf_std (l_s l)) (n_layers n) ->
+  nth_error (n_layers n) li = Some l -> l_time l = Some t ->
+  (1 <= t_K t)%nat -> length (t_beta t) = t_K t -> length (t_gamma t) = gamma_len (t_K t) ->
+  (S i < gamma_len (t_K t))%nat -> ~ pval n (PGamma li i) == 0 ->
+  0 < s_osz (l_s l) -> 0 < s_kc (l_s l) ->
+  0 < mask_eff (n_maskers n) (l_mask l) -> 0 < in_eff (n_maskers n) (l_in l) ->
+  0 < qsgn (pval n (PGamma li i)) * dd (d_pit_cost d_std_f (PGamma li i) n).
+Proof.
+  intros Hw Hs Hl Ht HK Hb Hgl Hi Hx Hosz Hkc Hm Hin.
+  set (w := PGamma li i) in *. set (s := qsgn (pval n w)).
+  assert (Hg : seeds_good s n w) by apply seeds_good_sgn.
+  assert (Ex : pval n w = nth i (t_gamma t) 0) by (unfold w; cbn [pval]; rewrite Hl, Ht; reflexivity).
+  assert (Hst : dstrict s (d_pit_cost d_std_f w n)); [|apply Hst].
+  apply (pit_strict_from_k s n w li l Hw Hs Hg Hl Hosz Hkc Hm Hin).
+  rewrite Ht. unfold w. cbn [d_k_eff beta_on gamma_on fst snd]. rewrite Nat.eqb_refl.
+  pose proof (gamma_len_pos (t_K t)) as Hgp.
+  apply k_eff_cont_strict.
+  - exact HK.
+  - rewrite seed_length. exact Hb.
+  - rewrite seed_length, Hgl. exact Hgp.
+  - apply seed_off_good.
+  - apply seed_good. intros _ _. unfold s. rewrite Ex. reflexivity.
+  - apply dv_dsum_seed_pos. lia.
+  - apply dv_dsum_seed_pos. lia.
+  - right. apply seed_strict; [lia|rewrite <- Ex; exact Hx|unfold s; rewrite Ex; reflexivity].
+Qed.
